@@ -309,6 +309,62 @@ func runLitmus(verbose bool) bool {
 			fmt.Println("litmus ok   race-positive:", strings.SplitN(st.Violations[0].Message, "\n", 2)[0])
 		}
 	}
+	// state cache: independent steps are not permuted, dependent ones still are
+	{
+		body := func() {
+			var a, b vatomic.Int32
+			done, wait := join(2)
+			vrt.GoH("A", func() { a.Add(1); a.Add(1); a.Add(1); done() })
+			vrt.GoH("B", func() { b.Add(1); b.Add(1); b.Add(1); done() })
+			wait()
+		}
+		full := Explore(&Scenario{Name: "litmus/indep-full", Bound: 8, Body: body}, time.Time{}, false)
+		red := Explore(&Scenario{Name: "litmus/indep-reduced", Bound: 8, Body: body, Reduce: true}, time.Time{}, false)
+		if red.Executions+red.Pruned >= full.Executions || len(red.Violations)+len(full.Violations) > 0 {
+			ok = false
+			fmt.Printf("LITMUS FAIL state cache did not reduce independent threads: full=%d reduced=%d(+%d pruned)\n", full.Executions, red.Executions, red.Pruned)
+		} else if verbose {
+			fmt.Printf("litmus ok   state-cache independent threads: full=%d reduced=%d (+%d pruned runs)\n", full.Executions, red.Executions, red.Pruned)
+		}
+		// same outcome sets with and without the cache on a scenario with timer ties and selects
+		ties := func() {
+			sem := make(chan struct{}, 1)
+			done, wait := join(3)
+			for i := 0; i < 3; i++ {
+				i := i
+				vrt.GoH("W", func() {
+					defer done()
+					tm := vtime.NewTimer(time.Duration(10))
+					switch vrt.Select(false, vrt.W(sem), vrt.R(tm.C)) {
+					case 0:
+						sem <- struct{}{}
+						vrt.Sleep(10)
+						vrt.Point("obs")
+						vrt.M("got", i, vrt.Elapsed())
+						vrt.Recv(sem)
+					case 1:
+						<-tm.C
+						vrt.Point("obs")
+						vrt.M("timeout", i)
+					}
+				})
+			}
+			wait()
+		}
+		fullT := Explore(&Scenario{Name: "litmus/ties-full", Bound: 1, Body: ties}, time.Time{}, false)
+		redT := Explore(&Scenario{Name: "litmus/ties-reduced", Bound: 1, Body: ties, Reduce: true}, time.Time{}, false)
+		if fullT.Outcomes != redT.Outcomes || len(redT.Violations) > 0 {
+			ok = false
+			fmt.Printf("LITMUS FAIL state cache changed the outcome set: full=%d outcomes (%d execs), reduced=%d outcomes (%d execs) %v\n", fullT.Outcomes, fullT.Executions, redT.Outcomes, redT.Executions, redT.Violations)
+		} else if verbose {
+			fmt.Printf("litmus ok   state-cache ties: %d outcomes both ways, full=%d reduced=%d(+%d) executions\n", fullT.Outcomes, fullT.Executions, redT.Executions, redT.Pruned)
+		}
+		lostRed := Explore(&Scenario{Name: "litmus/lost-update-reduced", Bound: 1, Reduce: true, Body: litmusCases()[2].sc.Body}, time.Time{}, false)
+		if len(lostRed.Violations) == 0 {
+			ok = false
+			fmt.Println("LITMUS FAIL state cache hid the lost update")
+		}
+	}
 	// replay determinism + corrupted choice list
 	sc := litmusCases()[2].sc
 	st := Explore(sc, time.Time{}, true)
